@@ -23,7 +23,7 @@ import (
 
 // C02: the DNS engine answer equals the reference resolution over all rules.
 
-var c02Hosts = []string{"ads.com", "sub.ads.com", "xads.com", "ads.com.evil.org", "tracker.io", "cdn.tracker.io", "example.org", "a.example.org", "localhost", "1.2.3.4", "printer", "ads.co.uk", "bce.ca", "fe.abc.de", "feed.cafe", "реклама.example", "bücher.example", "счётчик.рф", gen.Label63 + ".com", "x." + gen.Label63 + ".example.org", "abc.cafe.de", "dead.beef", gen.DeepHost}
+var c02Hosts = []string{"ads.com", "sub.ads.com", "xads.com", "ads.com.evil.org", "tracker.io", "cdn.tracker.io", "example.org", "a.example.org", "localhost", "1.2.3.4", "printer", "ads.co.uk", "bce.ca", "fe.abc.de", "feed.cafe", "реклама.example", "bücher.example", "счётчик.рф", gen.Label63 + ".com", "x." + gen.Label63 + ".example.org", "abc.cafe.de", "dead.beef", gen.DeepHost, "aaaaaa.example", "xyzxyzxy.com", "wwwwww.ads.com"}
 
 // c02Applicable classifies a spec: must the DNS engine use it?
 func c02Applicable(s *gen.Spec) ref.Tri {
@@ -279,6 +279,10 @@ func c02Judge(c *core.Ctx, list []string, q *gen.Req, res *urlfilter.DNSResult, 
 		bad("NetworkRules", gotNStrict, wantNStrict)
 
 		return
+	}
+	// (multiplicity is not judged, see C01: the statement compares sets)
+	if len(res.NetworkRules) > len(gotN) {
+		c.Event("answers_with_repeated_network_rules", 1)
 	}
 	gotClass := "none"
 	if res.NetworkRule != nil {
